@@ -141,6 +141,14 @@ func RunWorker(a WorkerArgs) int {
 	if timeout == 0 {
 		timeout = 60 * time.Second
 	}
+	// tools/pin.py: record the cases that held (used by hand to build /verif/pinned/<prop>.json)
+	var pinOut *os.File
+	if dir := os.Getenv("VERIF_PIN_OUT"); dir != "" && a.Witnesses == nil && !a.Corpus {
+		pinOut, _ = os.Create(filepath.Join(dir, fmt.Sprintf("%s-%d-%d.jsonl", a.Stratum, a.From, os.Getpid())))
+		if pinOut != nil {
+			defer pinOut.Close()
+		}
+	}
 	for i := a.From; i < a.To; i++ {
 		if skip[i] {
 			continue
@@ -217,6 +225,9 @@ func RunWorker(a WorkerArgs) int {
 		if o.nontrivial && v != Inconclusive {
 			agg.NonTrivial++
 			agg.Hashes[hash] = struct{}{}
+		}
+		if pinOut != nil && v == Held {
+			fmt.Fprintf(pinOut, "{\"stratum\":%q,\"hash\":%q,\"case\":%s}\n", a.Stratum, hash, cjson)
 		}
 		if len(agg.Samples) < 2 && o.nontrivial && p.Describe != nil {
 			agg.Samples = append(agg.Samples, p.Describe(c))
